@@ -13,6 +13,14 @@ COMMON_ASSUMPTIONS = [
 ]
 
 PROPS = {
+    "C17": {
+        "level": "translation_validation",
+        "candidates": families.corpus_c17,
+        "defaults": {"kind": "stateless", "builds": BUILDS2, "modes": ["full"]},
+        "keep_fail": 50,
+        "what": "library: for ALL int32 arguments satisfying the documented no-overflow precondition (a formula) the compiled one-line caller of each lib/math.facto function equals its documented definition; imports: the importing program compiled from 3 working directories (project dir, /, a directory holding decoy files of the same names) equals the generator's pasted twin for ALL inputs and is accepted",
+        "bounds": "13 library functions, int parameters from a boundary table; 13 import graphs (chain, diamond, cycle, self-cycle, twice, sub-directories, decoys, library inside an imported file); preprocess_imports itself is file I/O and is exercised concretely",
+    },
     "C13": {
         "level": "translation_validation",
         "candidates": families.corpus_c13,
